@@ -109,13 +109,25 @@ Proof.
   - change (B [32]) with [byte 32]. apply last_byte_app.
 Qed.
 
-(* xonsh evaluates Matches on the quoted text: refuted with `my dir/` and the set "/" *)
-Definition xonsh_emit (ns v : str) : str :=
-  let q := xonsh_quote v in if sm_matches ns q then q else q ++ B [32].
-Lemma xonsh_refuted :
-  exists ns v, sm_matches ns v = true /\ last_byte (xonsh_emit ns v) = Some (byte 32).
+(* xonsh: the decision is taken on the sanitised value, before quoting (since the repair) *)
+Lemma xonsh_quote_last v : last_byte (xonsh_quote v) <> Some (byte 32).
 Proof.
-  exists (B [47]), (B [109;121;32;100;105;114;47]). split; vm_compute; reflexivity.
+  unfold xonsh_quote. cbv zeta. destruct (contains_any (replace1 xonsh_sanitizer v) xonsh_ActionRawValues_any1) eqn:E.
+  - change (B [39] ++ replace1 xonsh_quoter (replace1 xonsh_sanitizer v) ++ B [39])
+      with (B [39] ++ replace1 xonsh_quoter (replace1 xonsh_sanitizer v) ++ [byte 39]).
+    rewrite last_byte_cons_app. intro H. inversion H.
+  - intro H. apply last_byte_In in H.
+    rewrite (contains_any_mem _ _ _ H blank_triggers_xonsh) in E. discriminate.
+Qed.
+Definition xonsh_emit (ns v : str) : str :=
+  let q := xonsh_quote v in if sm_matches ns (replace1 xonsh_sanitizer v) then q else q ++ B [32].
+Lemma xonsh_space_iff ns v :
+  last_byte (xonsh_emit ns v) = Some (byte 32) <-> sm_matches ns (replace1 xonsh_sanitizer v) = false.
+Proof.
+  unfold xonsh_emit. cbv zeta. destruct (sm_matches ns (replace1 xonsh_sanitizer v)); split; intro H; try discriminate.
+  - exfalso. exact (xonsh_quote_last _ H).
+  - reflexivity.
+  - change (B [32]) with [byte 32]. apply last_byte_app.
 Qed.
 
 (* bash-ble, cmd-clink, oil, elvish, ion: the decision is taken on the value before any quoting *)
